@@ -130,9 +130,12 @@ def _sccs(B, nodes):
     return res
 
 
-def success_sequences(B, event_fn, cap=4000, drop_errors=True):
-    """Set of event tuples over success paths; returns (set, truncated_flag)."""
+def success_sequences(B, event_fn, cap=4000, drop_errors=True, start=0, region=None):
+    """Set of event tuples over success paths; returns (set, truncated_flag).
+    With `region` (a set of blocks) and `start`: the paths from `start` inside the region, ending where they leave it."""
     live = B.live_blocks()
+    if region is not None:
+        live = set(live) & set(region)
     err = error_blocks(B) if drop_errors else set()
     comps = _sccs(B, live)
     comp_of = {}
@@ -204,6 +207,8 @@ def success_sequences(B, event_fn, cap=4000, drop_errors=True):
             return memo[ci]
         out = set()
         term_here = any(B.blocks[v]['t']['k'] == 'ret' for v in c)
+        if region is not None and not term_here:
+            term_here = any(w not in live and w not in err and not B.is_unreachable_block(w) for v in c for w in B.succ(v))
         if term_here:
             out.add(ev[ci])
         for s_ in succs[ci]:
@@ -215,7 +220,7 @@ def success_sequences(B, event_fn, cap=4000, drop_errors=True):
         memo[ci] = out
         return out
 
-    res = seqs(comp_of[0]) if 0 in comp_of else set()
+    res = seqs(comp_of[start]) if start in comp_of else set()
     return res, trunc[0]
 
 
@@ -387,7 +392,7 @@ def loop_bound(B, comp_blocks):
     return None
 
 
-def signature(B, subcalls=None, direction='r'):
+def signature(B, subcalls=None, direction='r', start=0, region=None):
     """Normalised wire signatures of a reader/writer: set of tuples of items
        ('u8'|'u16'|...,) | ('bytes', ref) | ('term',) | ('rep', items, ref) | ('const', width, value)
     where ref is the index of the earlier item that supplies the length/count, an int constant, or None."""
@@ -410,7 +415,7 @@ def signature(B, subcalls=None, direction='r'):
     def event_fn(B_, bb):
         return ev(B_, bb)
 
-    seqs, trunc = success_sequences(B, event_fn)
+    seqs, trunc = success_sequences(B, event_fn, start=start, region=region)
     out = set()
     for s in seqs:
         out.add(_normalise(B, s, loops, comp_of))
@@ -507,7 +512,7 @@ def fmt_sig(sig):
         if it[0] == 'rep':
             out.append('rep[%s](%s)' % (_fmt_ref(it[2]), fmt_sig(it[1])))
         elif it[0] == 'bytes':
-            out.append('bytes[%s]' % _fmt_ref(it[1]))
+            out.append('bytes[%s]' % _fmt_ref(it[1] if len(it) > 1 else None))
         elif it[0] == 'const':
             out.append('%s=%s' % (it[1], it[2]))
         elif len(it) == 2:
